@@ -36,6 +36,13 @@ along with the GNU MP Library.  If not, see http://www.gnu.org/licenses/.  */
 #ifndef __GMP_IMPL_H__
 #define __GMP_IMPL_H__
 
+/* observation hooks of the verification harness (no-ops unless MPIR_VERIF) */
+#ifdef MPIR_VERIF
+#include "verif-hook.h"
+#else
+#define VERIF_EV(tag,a,b,c,d)  ((void) 0)
+#endif
+
 /* limits.h is not used in general, since it's an ANSI-ism, and since on
    solaris gcc 2.95 under -mcpu=ultrasparc in ABI=32 ends up getting wrong
    values (the ABI=64 values).
